@@ -338,3 +338,30 @@ Proof.
 Qed.
 
 End StructRT.
+
+(* inversion of the classification for the two fixed-width integer kinds *)
+Lemma classify_plain_int tm allfs f i : classify tm allfs f = Some (MkInt i) -> plain_member allfs f /\ f_type f = FInt i.
+Proof.
+  unfold classify, plain_member. destruct (f_cond f); [discriminate|]. destruct (is_sizeof f); [discriminate|]. destruct (is_computed f); [discriminate|].
+  destruct (f_type f) as [j|t|a]; try discriminate.
+  - destruct (it_size j <? 0); [discriminate|]. destruct (is_reserved f).
+    + destruct (f_value f); try discriminate. destruct (bound_field allfs f); discriminate.
+    + destruct (bound_field allfs f) as [g|].
+      * destruct (f_array g); [|discriminate]. destruct (f_cond g); [discriminate|]. destruct (_ && _); discriminate.
+      * intros H; injection H as ->. repeat split; reflexivity.
+  - destruct (_ && _); [|discriminate]. destruct (bound_field allfs f); [discriminate|]. destruct (size_fields_of allfs f); discriminate.
+  - destruct (bound_field allfs f); [discriminate|]. destruct (a_size a); try discriminate. destruct (is_byte_array a); [discriminate|]. destruct (_ && _); discriminate.
+Qed.
+
+Lemma classify_reserved tm allfs f i n : classify tm allfs f = Some (MkReserved i n) ->
+  f_cond f = None /\ bound_field allfs f = None /\ is_computed f = false /\ is_reserved f = true /\ f_type f = FInt i /\ f_value f = VNum n.
+Proof.
+  unfold classify. destruct (f_cond f); [discriminate|]. destruct (is_sizeof f); [discriminate|]. destruct (is_computed f); [discriminate|].
+  destruct (f_type f) as [j|t|a]; try discriminate.
+  - destruct (it_size j <? 0); [discriminate|]. destruct (is_reserved f).
+    + destruct (f_value f); try discriminate. destruct (bound_field allfs f); [discriminate|]. intros H; injection H as -> ->. repeat split; reflexivity.
+    + destruct (bound_field allfs f) as [g|]; [|discriminate].
+      destruct (f_array g); [|discriminate]. destruct (f_cond g); [discriminate|]. destruct (_ && _); discriminate.
+  - destruct (_ && _); [|discriminate]. destruct (bound_field allfs f); [discriminate|]. destruct (size_fields_of allfs f); discriminate.
+  - destruct (bound_field allfs f); [discriminate|]. destruct (a_size a); try discriminate. destruct (is_byte_array a); [discriminate|]. destruct (_ && _); discriminate.
+Qed.
